@@ -22,6 +22,10 @@ LISTS = [[], [1], [1, 2], [1.0], ["a"], [True], [[1]], [1, "a"], [None]]
 SCALARS = INTS + IFLOATS + FLOATS + BOOLS + [None] + STRS
 SP_KEYS = ["a", "b"]
 DOC_KEYS = ["a", "d"]
+# keys whose names merely begin with the letters of a namespace ("sp", "doc"): a prefix test on the
+# raw key instead of a test on its first dotted component must show
+LOOKALIKE_SP_KEYS = ["spin", "docs"]
+LOOKALIKE_DOC_KEYS = ["spin"]
 
 
 def rand_scalar(rng):
@@ -60,6 +64,9 @@ def rand_mapping(rng, keys, nested_key):
     for k in keys:
         if rng.random() < 0.75:
             d[k] = rand_val(rng)
+    for k in (LOOKALIKE_SP_KEYS if nested_key == "n" else LOOKALIKE_DOC_KEYS):
+        if rng.random() < 0.3:
+            d[k] = rand_scalar(rng)
     if rng.random() < 0.6:
         sub = {k: rand_val(rng, nested=rng.random() < 0.25) for k in ["x", "y"] if rng.random() < 0.7}
         if rng.random() < 0.15:
@@ -80,7 +87,7 @@ def rand_corpus(rng, nmax=6, typed=None):
         sp = rand_mapping(rng, SP_KEYS, "n")
         if typed is not None:
             fam = {"num": INTS + IFLOATS + FLOATS + BOOLS, "str": STRS, "list": [[1], [1, 2], [2], [1.0], []]}[typed]
-            for k in SP_KEYS:
+            for k in SP_KEYS + LOOKALIKE_SP_KEYS:
                 if k in sp and not isinstance(sp[k], dict):
                     sp[k] = rng.choice(fam)
             if isinstance(sp.get("n"), dict):
@@ -97,7 +104,7 @@ def rand_corpus(rng, nmax=6, typed=None):
         else:
             doc = rand_mapping(rng, DOC_KEYS, "m")
             if typed is not None:
-                for k in DOC_KEYS:
+                for k in DOC_KEYS + LOOKALIKE_DOC_KEYS:
                     if k in doc and not isinstance(doc[k], dict):
                         doc[k] = rng.choice(fam)
                 if isinstance(doc.get("m"), dict):
@@ -116,7 +123,8 @@ TYPE_NAMES = ["int", "float", "bool", "str", "list", "null"]
 REGEXES = ["a", "^a", "b$", ".", "^$", "[0-9]"]
 NEAR_ARGS = [1, 1.0, 0.5, [1], [2.4, 0.1], [1, 0.5, 0.5], [0, 0.0, 1.0], True, "1.0", [1, "0.5"]]
 # (spelling, namespace, path) of every key the small-scope grammar uses
-KEY_SPELLINGS = ["a", "b", "sp.a", "n.x", "n.y", "sp.n.x", "n", "doc.a", "doc.d", "doc.m.x", "doc.m"]
+KEY_SPELLINGS = ["a", "b", "sp.a", "n.x", "n.y", "sp.n.x", "n", "doc.a", "doc.d", "doc.m.x", "doc.m",
+                 "spin", "sp.spin", "docs", "doc.spin"]
 
 
 def atom_args(rng_or_none=None):
